@@ -5,7 +5,7 @@ import gen as G
 import codec, targets, cont
 
 MODEL_TARGETS = ["model/De.vo", "model/Reader.vo"]
-COQ_TARGETS = ["props/C11.vo", "proofs/ConstsTie.vo"]
+COQ_TARGETS = ["props/C11.vo", "proofs/ConstsTie.vo", "proofs/DeDispatchTie.vo"]
 THEOREMS = [("C11", ["C11_varint", "C11_de", "C11_datum", "C11_container", "C11_compressed_file_chunk_independent"])]
 PROOF_FILES = ["proofs/ReaderProofs.v", "proofs/VarintProofs.v", "props/C11.v", "proofs/ContainerChunkProofs.v", "proofs/ContainerReadProofs.v", "proofs/DecodeLoopProofs.v", "proofs/ContainerCodecProofs.v"]
 TRUSTED_BASE = [
